@@ -45,6 +45,19 @@ def run(ctx):
         for op in ('enc', 'dec'):
             for blk in core.zero_edge_inputs(lambda x, op=op: getattr(obj, op)(x), gen, want=2 if big else 1, tries=600 if bl <= 32 else 150):
                 ev.append(R.ev_crypt(obj, cirec, op, blk)); ctx.mark((c, n, 'zero-edge', op, blk.hex()[:8]))
+    # (b') many distinct keys in one process, then the first ones again (anything that remembers key material per key has to survive its own capacity)
+    from crysp import aes as _aes, des as _des
+    for c, cls, n, bl, count in (('des', _des.DES, 8, 8, 1100), ('aes', _aes.AES, 16, 16, 300 if not big else 1100)):
+        first = [bytes(rnd.randrange(256) for _ in range(n)) for _ in range(3)]
+        blk = bytes(rnd.randrange(256) for _ in range(bl))
+        objs = [R.construct(c, [K]) for K in first]
+        for K, o in zip(first, objs): ev.append(R.ev_crypt(o, R.ci(c, [K]), 'enc', blk))
+        try:
+            for i in range(count): cls(((i + 1) * 0x9E3779B97F4A7C15 % (1 << (8 * n))).to_bytes(n, 'big')).enc(blk)
+        except Exception: pass
+        for K, o in zip(first, objs):
+            ev.append(R.ev_crypt(o, R.ci(c, [K]), 'enc', blk)); ev.append(R.ev_crypt(R.construct(c, [K]), R.ci(c, [K]), 'dec', blk))
+        ctx.mark((c, 'many keys', count))
     # (c) keying forms: TDEA (separate keys, one string), Serpent key lengths 1..32
     def k8(): return bytes(rnd.randrange(256) for _ in range(8))
     for rep in range(4 if big else 2):
